@@ -484,6 +484,29 @@ func storeDerived(n *nilAnalysis, v ssa.Value, seen map[ssa.Value]bool) (bool, s
 				}
 			}
 		}
+	case *ssa.Parameter:
+		// a helper that is handed the object (`ApplyMetaOverrides(copied, &overrides)`): what any caller
+		// outside the store implementations passes
+		fn := x.Parent()
+		for i, p := range fn.Params {
+			if p != x {
+				continue
+			}
+			for _, r := range n.p.Refs(fn) {
+				call, ok := r.Instr.(ssa.CallInstruction)
+				if !ok || r.Kind != core.RefCall || i >= len(call.Common().Args) {
+					continue
+				}
+				if root := core.Root(r.Instr.Parent()); root.Signature.Recv() != nil {
+					if nm := core.NamedOf(root.Signature.Recv().Type()); nm != nil && (core.TName(nm) == "memstore" || core.TName(nm) == "filestore") {
+						continue
+					}
+				}
+				if d, w := storeDerived(n, call.Common().Args[i], seen); d {
+					return true, w + " (handed to " + core.FuncName(fn) + ")"
+				}
+			}
+		}
 	case *ssa.Phi:
 		for _, e := range x.Edges {
 			if d, w := storeDerived(n, e, seen); d {
